@@ -1,14 +1,16 @@
 """C08 — reported equilibrium compositions are genuine whenever the solver claims success and a sane result.
 
 State space (DESIGN.md §3 C08), a product lattice swept completely:
-  system   single homogeneous equilibria, water + one, water + two equilibria from the pool of mc/ref/eqmodel.py
-  K        literature log10 K shifted by {-2, 0, +2} per non-water reaction (one non-default shift at a time for
+  system   single homogeneous equilibria, water + one, water + two (thorough: + three) equilibria from the pool of
+           mc/ref/eqmodel.py
+  K        literature log10 K shifted by {-2, 0, +2} per non-water reaction (quick: one non-default shift at a time for
            three-reaction systems)
   init     every point of a concentration lattice over all non-solvent species (H2O fixed at 55.5), strictly positive
   solver   EqSystem.root with chains (Log,), (Lin,), (Log, Lin) x rref_preserv {False, True (single-formulation chains)};
            EqSystem.solve over the same lattice given as a `varied` grid (its fixed default chain);
            chempy._equilibrium.solve_equilibrium (brentq) for single-equilibrium systems
-  precipitation: the NaCl(s) system, init in {0, .5, 1, 2, 3}^3 \\ {0}, three chains x two option sets
+  precipitation: the NaCl(s) system written as dissolution and as precipitation, Ksp in {4, 1}, init in
+           {0, .5, 1, 2, 3}^3 \\ {0}, root with three chains x two option sets, and solve
 Oracle (from the statement), applied to every run that reports `success and sane`:
   x >= 0;  |B x - B init| <= 1e-6 * (|B| max(|init|,|x|)) for every element and charge;  |Q_i / K_i - 1| <= 1e-6;
   precipitation: IP meets Ksp (solid >= 0) or the solid is absent (<= 1e-9) and IP <= Ksp (1 + 1e-6).
@@ -51,7 +53,8 @@ CHAINS = [("Log",), ("Lin",), ("Log", "Lin")]
 ROOT_CONFIGS = [(("Log",), False), (("Lin",), False), (("Log", "Lin"), False), (("Log",), True), (("Lin",), True)]
 DEFAULT_RUNS = ("root|Log|rp=0", "solve|Log+Lin|rp=0")
 PRECIP_LATTICE = [0.0, 0.5, 1.0, 2.0, 3.0]
-KSP = 4.0
+KSPS = [4.0, 1.0]
+ORIENTATIONS = ["dissolution", "precipitation"]  # NaCl(s) = Na+ + Cl- ; K = Ksp   |   Na+ + Cl- = NaCl(s) ; K = 1/Ksp
 
 
 def systems(tier):
@@ -94,7 +97,7 @@ def bounds(tier):
     return dict(
         systems=[dict(system=list(t), lattice=l, K_shifts=len(kshifts(t, m))) for t, l, m in systems(tier)],
         H2O=H2O, root_configs=["%s rref_preserv=%s" % ("+".join(c), rp) for c, rp in ROOT_CONFIGS], solve="default chain, varied grid",
-        brentq="single-equilibrium systems", precipitation=dict(lattice=PRECIP_LATTICE, Ksp=KSP, chains=["+".join(c) for c in CHAINS],
+        brentq="single-equilibrium systems", precipitation=dict(lattice=PRECIP_LATTICE, Ksp=KSPS, written_as=ORIENTATIONS, chains=["+".join(c) for c in CHAINS],
                                                                options=["default", "rref_preserv=True, tol=1e-12"], solve="default chain, single points"),
         rtol=RTOL, solid_absent=SOLID_ABSENT, liveness="per chunk, default chains, >= 19/20",
     )
@@ -105,8 +108,10 @@ def chunks(tier):
     for tags, latt, mode in systems(tier):
         for sh in kshifts(tags, mode):
             out.append(("H", tags, tuple(latt), sh))
-    for a in range(len(PRECIP_LATTICE)):
-        out.append(("P", a))
+    for orient in ORIENTATIONS:
+        for ksp in KSPS:
+            for a in range(len(PRECIP_LATTICE)):
+                out.append(("P", orient, ksp, a))
     return out
 
 
@@ -158,7 +163,7 @@ def judge(names, idx, K, init, x):
     return sorted(kinds), mags
 
 
-def judge_precip(init, x):
+def judge_precip(init, x, KSP):
     import numpy as np
 
     x = np.asarray(x, dtype=float).ravel()
@@ -206,12 +211,16 @@ def build(tags, shifts):
     return es, names, idx, K
 
 
-def build_precip():
+def build_precip(orient, KSP):
     from chempy import Equilibrium, Species
     from chempy.equilibria import EqSystem
 
     subs = [Species("Na+", 1, composition={11: 1}), Species("Cl-", -1, composition={17: 1}), Species("NaCl", composition={11: 1, 17: 1}, phase_idx=1)]
-    return EqSystem([Equilibrium({"NaCl": 1}, {"Na+": 1, "Cl-": 1}, KSP)], subs), ["Na+", "Cl-", "NaCl"]
+    if orient == "dissolution":
+        eq = Equilibrium({"NaCl": 1}, {"Na+": 1, "Cl-": 1}, KSP)
+    else:
+        eq = Equilibrium({"Na+": 1, "Cl-": 1}, {"NaCl": 1}, 1.0 / KSP)
+    return EqSystem([eq], subs), ["Na+", "Cl-", "NaCl"]
 
 
 def run_root(es, names, init, chain, rp, extra=None):
@@ -397,8 +406,11 @@ def run_chunk(chunk, tier):
                 res.outcomes["liveness:ok"] += 1
         res.sample(dict(system=list(tags), species=names, K=K, lattice=list(latt), cases=res.states, default_chain_success=dict((r, v[1]) for r, v in live.items())), limit=1)
     elif chunk[0] == "P":
-        es, names = build_precip()
-        a = PRECIP_LATTICE[chunk[1]]
+        _, orient, ksp, ai = chunk
+        es, names = build_precip(orient, ksp)
+        a = PRECIP_LATTICE[ai]
+        res.symbols["precip-written-as:" + orient] += 1
+        res.symbols["Ksp:%g" % ksp] += 1
         for b_, c in itertools.product(PRECIP_LATTICE, repeat=2):
             init = [a, b_, c]
             if not any(init):
@@ -410,18 +422,18 @@ def run_chunk(chunk, tier):
             for chain in CHAINS:
                 for oname, extra in (("default", None), ("rrefp+tol", dict(rref_preserv=True, tol=1e-12))):
                     res.transitions += 1
-                    claimed |= precip_run(res, es, names, init, chain, oname, extra)
+                    claimed |= precip_run(res, es, names, init, chain, oname, extra, "root", orient, ksp)
             res.transitions += 1
-            claimed |= precip_run(res, es, names, init, ("Log", "Lin"), "default", None, entry="solve")
+            claimed |= precip_run(res, es, names, init, ("Log", "Lin"), "default", None, "solve", orient, ksp)
             if claimed:
                 res.nontrivial += 1
-        res.sample(dict(system="NaCl(s) = Na+ + Cl-", Ksp=KSP, first=a, cases=res.states), limit=1)
+        res.sample(dict(system="NaCl(s)/Na+/Cl- written as " + orient, Ksp=ksp, first=a, cases=res.states), limit=1)
     else:
         raise ValueError(chunk)
     return res
 
 
-def precip_run(res, es, names, init, chain, oname, extra, entry="root"):
+def precip_run(res, es, names, init, chain, oname, extra, entry, orient, KSP):
     import numpy as np
 
     run = "precip-%s|%s|%s" % (entry, "+".join(chain), oname)
@@ -434,7 +446,7 @@ def precip_run(res, es, names, init, chain, oname, extra, entry="root"):
         except Exception as e:
             x, success, sane, exc = None, False, False, "EXC %s" % type(e).__name__
     claim = _claim(success, sane, exc)
-    kinds, mags = judge_precip(init, x) if claim == "success+sane" else ([], {})
+    kinds, mags = judge_precip(init, x, KSP) if claim == "success+sane" else ([], {})
     res.evaluations += 1
     if claim != "success+sane":
         res.outcomes["%s:%s" % (run, claim)] += 1
@@ -445,9 +457,9 @@ def precip_run(res, es, names, init, chain, oname, extra, entry="root"):
         return True
     res.outcomes["%s:success+sane:NOT-GENUINE(%s)" % (run, "+".join(kinds))] += 1
     res.violation(_key(run, kinds),
-                  "%s claims success and a sane result for NaCl(s) with init=%s (Ksp=%g) but returns %s: %s (%s)"
-                  % (run, dict(zip(names, init)), KSP, [float("%.6g" % v) for v in x], ", ".join(kinds), ", ".join("%s=%.3g" % kv for kv in sorted(mags.items()))),
-                  dict(layer="P", init=list(init), chain=list(chain), options=oname, entry=entry), dict(x=[float(v) for v in x], kinds=kinds, mags=mags),
+                  "%s claims success and a sane result for NaCl(s) written as %s with init=%s (Ksp=%g) but returns %s: %s (%s)"
+                  % (run, orient, dict(zip(names, init)), KSP, [float("%.6g" % v) for v in x], ", ".join(kinds), ", ".join("%s=%.3g" % kv for kv in sorted(mags.items()))),
+                  dict(layer="P", init=list(init), chain=list(chain), options=oname, entry=entry, orient=orient, ksp=KSP), dict(x=[float(v) for v in x], kinds=kinds, mags=mags),
                   "x>=0, Na/Cl/charge totals kept, (solid present and IP=Ksp) or (solid absent and IP<=Ksp)")
     return True
 
@@ -460,9 +472,9 @@ def replay(case):
         r = run_chunk((c[0], tuple(c[1]), tuple(c[2]), tuple(c[3])), "quick")
         vs = [v for v in r.violations if v["case"].get("layer") == "live" and v["case"].get("run") == case["run"]]
     elif case.get("layer") == "P":
-        es, names = build_precip()
+        es, names = build_precip(case["orient"], case["ksp"])
         extra = None if case["options"] == "default" else dict(rref_preserv=True, tol=1e-12)
-        precip_run(res, es, names, case["init"], tuple(case["chain"]), case["options"], extra, entry=case.get("entry", "root"))
+        precip_run(res, es, names, case["init"], tuple(case["chain"]), case["options"], extra, case.get("entry", "root"), case["orient"], case["ksp"])
         vs = res.violations
     else:
         tags, shifts, init = tuple(case["tags"]), tuple(case["shifts"]), case["init"]
